@@ -32,10 +32,13 @@ type HarnessSpec struct {
 	NoReplay bool                  `json:"no_replay"`
 	Unwind  int                    `json:"unwind"`
 	MaxPaths int                   `json:"max_paths"`
+	Redirect map[string]string     `json:"redirect"`
+	RedirectSet string             `json:"redirect_set"`
 }
 
 type Props struct {
-	Harnesses []HarnessSpec `json:"harnesses"`
+	Harnesses    []HarnessSpec                `json:"harnesses"`
+	RedirectSets map[string]map[string]string `json:"redirect_sets"`
 }
 
 type KnownFinding struct {
@@ -65,6 +68,8 @@ func main() {
 	replay := flag.String("replay", "", "replay a counterexample file natively")
 	only := flag.String("only", "", "only harnesses whose name contains this")
 	noReplay := flag.Bool("noreplay", false, "skip native replay of counterexamples")
+	redirS := flag.String("redirect", "", "debug: from=to,from=to")
+	ufS := flag.String("uf", "", "debug: comma separated functions to replace by uninterpreted functions")
 	flag.StringVar(&repoDir, "repo", "/repo", "repository directory")
 	flag.StringVar(&verifDir, "verif", "/verif", "verif directory")
 	flag.Parse()
@@ -105,6 +110,28 @@ func main() {
 		if err != nil {
 			panic(err)
 		}
+		if *redirS != "" {
+			for _, kv := range strings.Split(*redirS, ",") {
+				p := strings.SplitN(kv, "=", 2)
+				e.Redirect[expandName(p[0])] = expandName(p[1])
+			}
+		}
+		if *ufS != "" {
+			for _, u := range strings.Split(*ufS, ",") {
+				e.UFStubs[expandName(u)] = true
+			}
+		}
+		// in debug mode take harness settings from the props files when present
+		for _, h := range loadProps().Harnesses {
+			if h.Fn == parts[1] {
+				for k, v := range h.Redirect {
+					e.Redirect[expandName(k)] = expandName(v)
+				}
+				for _, u := range h.UF {
+					e.UFStubs[expandName(u)] = true
+				}
+			}
+		}
 		r := e.RunHarness(pkgPath(parts[0]), parts[1], args, 0)
 		b, _ := json.MarshalIndent(r, "", " ")
 		fmt.Println(string(b))
@@ -115,6 +142,20 @@ func main() {
 		os.Exit(2)
 	}
 	os.Exit(runProp(*prop, *tier, *workers, *debug, *only, *noReplay))
+}
+
+// expandName turns "webp/internal/lossless.Encode" or "webp.foo" into the full import path form.
+func expandName(n string) string {
+	if strings.HasPrefix(n, "webp/") {
+		return modPath + n[4:]
+	}
+	if strings.HasPrefix(n, "webp.") {
+		return modPath + n[4:]
+	}
+	if strings.HasPrefix(n, "(*webp/") {
+		return "(*" + modPath + n[6:]
+	}
+	return n
 }
 
 func pkgPath(rel string) string {
@@ -157,6 +198,30 @@ func loadProps() Props {
 			os.Exit(2)
 		}
 		ps.Harnesses = append(ps.Harnesses, p.Harnesses...)
+		for k, v := range p.RedirectSets {
+			if ps.RedirectSets == nil {
+				ps.RedirectSets = map[string]map[string]string{}
+			}
+			ps.RedirectSets[k] = v
+		}
+	}
+	for i := range ps.Harnesses {
+		h := &ps.Harnesses[i]
+		if h.RedirectSet != "" {
+			set, ok := ps.RedirectSets[h.RedirectSet]
+			if !ok {
+				fmt.Fprintf(os.Stderr, "unknown redirect_set %q\n", h.RedirectSet)
+				os.Exit(2)
+			}
+			if h.Redirect == nil {
+				h.Redirect = map[string]string{}
+			}
+			for k, v := range set {
+				if _, ok := h.Redirect[k]; !ok {
+					h.Redirect[k] = v
+				}
+			}
+		}
 	}
 	return ps
 }
@@ -297,7 +362,10 @@ func runProp(prop, tier string, workers int, debug bool, only string, noReplay b
 					continue
 				}
 				for _, u := range j.h.UF {
-					e.UFStubs[u] = true
+					e.UFStubs[expandName(u)] = true
+				}
+				for k, v := range j.h.Redirect {
+					e.Redirect[expandName(k)] = expandName(v)
 				}
 				e.KnownOpen = map[string]bool{}
 				for id := range openKnown {
@@ -328,7 +396,7 @@ func runProp(prop, tier string, workers int, debug bool, only string, noReplay b
 		} else if len(r.res.Inconclusive) > 0 {
 			status = "inconclusive: " + r.res.Inconclusive[0]
 		}
-		fmt.Printf("  %-40s %-14v paths=%-4d obl=%d/%d q=%d solver=%.1fs wall=%.1fs %s\n", r.job.h.Fn, r.res.Args, r.res.Paths, r.res.Discharged, r.res.Obligations, r.res.Queries, r.res.SolverTime.Seconds(), r.res.Wall.Seconds(), status)
+		fmt.Printf("  %-40s %-22s paths=%-4d obl=%d/%d q=%d solver=%.1fs wall=%.1fs %s\n", r.job.h.Fn, fmt.Sprint(r.res.Args), r.res.Paths, r.res.Discharged, r.res.Obligations, r.res.Queries, r.res.SolverTime.Seconds(), r.res.Wall.Seconds(), status)
 	}
 	sort.Slice(results, func(i, j int) bool {
 		if results[i].job.h.Fn != results[j].job.h.Fn {
@@ -342,6 +410,7 @@ func runProp(prop, tier string, workers int, debug bool, only string, noReplay b
 	var notes []string
 	knownSeen := map[string]bool{}
 	replayed := map[string]int{}
+	var candNotes []string
 	for _, r := range results {
 		if r.res.Err != "" {
 			fmt.Printf("INCONCLUSIVE property=%s harness=%s args=%v: %s\n", prop, r.job.h.Fn, r.res.Args, r.res.Err)
@@ -391,6 +460,9 @@ func runProp(prop, tier string, workers int, debug bool, only string, noReplay b
 				fmt.Printf("VIOLATION property=%s replay=%s\n", prop, path)
 				nviol++
 				exit = 1
+			} else if v.Kind == "candidate" {
+				fmt.Printf("  NOTE property=%s harness=%s args=%v: sufficient-condition candidate (%s) not confirmed by native replay: the stricter condition fails but the property itself holds on this input\n", prop, r.job.h.Fn, r.res.Args, v.Msg)
+				candNotes = append(candNotes, fmt.Sprintf("%s%v: candidate '%s' not confirmed natively", r.job.h.Fn, r.res.Args, v.Msg))
 			} else {
 				fmt.Printf("INCONCLUSIVE property=%s harness=%s args=%v: solver counterexample (%s: %s at %s) did not reproduce natively; encoding or stub suspect\n%s\n", prop, r.job.h.Fn, r.res.Args, v.Kind, v.Msg, v.Pos, out)
 				notes = append(notes, fmt.Sprintf("%s%v: counterexample did not replay", r.job.h.Fn, r.res.Args))
@@ -417,6 +489,7 @@ func runProp(prop, tier string, workers int, debug bool, only string, noReplay b
 			}
 		}
 	}
+	notes = append(notes, candNotes...)
 	writeEvidence(prop, tier, results, time.Since(t0), nviol, notes)
 	if exit == 0 {
 		fmt.Printf("OK property=%s tier=%s instances=%d wall=%.1fs\n", prop, tier, len(results), time.Since(t0).Seconds())
